@@ -162,11 +162,53 @@ def keeps : Option BErr → Bool
   | some .shortBuffer => true
   | _ => false
 
-theorem batchClose_kept (b : BSt) : (batchClose b).2.2 = keeps b.err := by
+theorem ofErr_discard_not_kept (e : Err) (h : ∀ k, e ≠ .kafka k) : keeps (some (ofErr e)) = false := by
+  cases e <;> simp_all [ofErr, keeps]
+
+/-- without a real reader to discard (`msgs == nil` or the `empty` reader) Close keeps the conn by the sticky error alone -/
+theorem batchClose_kept_nodiscard (b : BSt) (h : (b.hasMsgs && !b.empty) = false) :
+    (batchClose b).2.2 = keeps b.err := by
   unfold batchClose keeps
+  simp only [h, Bool.false_eq_true, ↓reduceIte]
   cases b.err with
   | none => rfl
   | some e => cases e <;> rfl
+
+theorem batchClose_rs (b : BSt) :
+    (batchClose b).2.1 = if b.hasMsgs && !b.empty then (discardN b.rs.sz b.rs).2 else b.rs := by
+  unfold batchClose
+  simp only
+  split <;> rfl
+
+theorem discardN_err_not_kafka (n : Int) (s : RS) (e : Err) (h : (discardN n s).1 = .error e) : ∀ k, e ≠ .kafka k := by
+  intro k hk; subst hk
+  unfold discardN at h
+  repeat' split at h
+  all_goals simp at h
+
+/-- a kept conn: the sticky error allows it AND the discard (if there was one) succeeded -/
+theorem batchClose_kept_imp (b : BSt) (hk : (batchClose b).2.2 = true) :
+    keeps b.err = true ∧ ((b.hasMsgs && !b.empty) = true → ∃ u, (discardN b.rs.sz b.rs).1 = .ok u) := by
+  cases hd : (b.hasMsgs && !b.empty) with
+  | false =>
+    rw [batchClose_kept_nodiscard b hd] at hk
+    exact ⟨hk, by intro h; cases h⟩
+  | true =>
+    unfold batchClose at hk
+    simp only [hd, ↓reduceIte] at hk
+    cases hr : (discardN (↑b.rs.sz) b.rs).1 with
+    | ok u =>
+      refine ⟨?_, fun _ => ⟨u, rfl⟩⟩
+      simp only [hr] at hk
+      unfold keeps
+      cases hb : b.err with
+      | none => rfl
+      | some e => cases e <;> simp_all
+    | error e =>
+      simp only [hr] at hk
+      have hnk := discardN_err_not_kafka _ _ e hr
+      cases e <;> simp [ofErr] at hk
+      exact absurd rfl (hnk _)
 
 theorem ofErr_keeps (e : Err) (h : keeps (some (ofErr e)) = true) : ∃ k, e = .kafka k := by
   cases e <;> simp [ofErr, keeps] at h ⊢
